@@ -459,6 +459,12 @@ class Check:
             seen.add(key)
             print("VIOLATION property=%s replay=%s%s" % (self.pid, path, " no-failing-input-found" if nf else ""))
         cov = dict(self.cov)
+        # schema: typed keys must keep their types; a descriptive value moves to a *_scope key
+        if "exhaustive" in cov and not isinstance(cov["exhaustive"], bool):
+            cov["exhaustive_scope"] = cov.pop("exhaustive")
+        for k in ("states", "transitions", "traces_validated_against_impl"):
+            if k in cov and not (isinstance(cov[k], int) and not isinstance(cov[k], bool) and cov[k] >= 0):
+                cov[k + "_detail"] = cov.pop(k)
         cov["obligations"] = self.obligations
         cov["discharged"] = self.discharged
         cov["checker_cmd"] = "; ".join(self.checker_cmds) or "none"
